@@ -73,7 +73,9 @@ def Dict.keys (d : Dict) : List Name := d.map (·.1)
 def Dict.has (d : Dict) (k : Name) : Bool := d.keys.contains k
 
 /-- `d[k]` for a key that is present (0 otherwise; every use below is guarded by `has`) -/
-def Dict.get (d : Dict) (k : Name) : Nat := (d.lookup k).getD 0
+def Dict.get : Dict → Name → Nat
+  | [], _ => 0
+  | (a, b) :: d, k => if a = k then b else Dict.get d k
 
 /-- `if k not in d: d[k] = v` -/
 def Dict.setDefault (d : Dict) (k : Name) (v : Nat) : Dict :=
@@ -81,7 +83,7 @@ def Dict.setDefault (d : Dict) (k : Name) (v : Nat) : Dict :=
 
 /-- `d[k] = v` (an existing key keeps its position) -/
 def Dict.set (d : Dict) (k : Name) (v : Nat) : Dict :=
-  if d.has k then d.map (fun p => if p.1 == k then (k, v) else p) else d ++ [(k, v)]
+  if d.has k then d.map (fun p => if p.1 = k then (k, v) else p) else d ++ [(k, v)]
 
 /-- `sorted(d.keys())`: Python compares `str` by code point, which is `String`'s order on the rendered names -/
 def sortNames (ns : List Name) : List Name :=
@@ -154,31 +156,33 @@ structure LoopState where
   lused : Dict := []     -- labels_used
 deriving Repr, Inhabited
 
-/-- One scope's statement loop from index `ix`.  `onFn ix name args body` is what the loop does at a function statement
-*besides* the redefinition test: the per-function analysis in the global scope, nothing inside a function body. -/
+/-- The body of one scope's statement loop at statement `s` with index `ix`.  `onFn ix name args body` is what the loop
+does at a function statement *besides* the redefinition test: the per-function analysis in the global scope, nothing inside
+a function body. -/
+def scopeStep (sc : Scope) (onFn : Nat → Name → List Name → List Stmt → List Warning) (ix : Nat) (s : Stmt)
+    (st : LoopState) : LoopState :=
+  match s with
+  | .function _ f args _ _ body =>
+      match sc with
+      | .global =>
+          let st1 : LoopState :=
+            if st.fdefs.has f then { st with warnings := st.warnings ++ [.redefFunction f ix] }
+            else { st with fdefs := st.fdefs ++ [(f, ix)] }
+          { st1 with warnings := st1.warnings ++ onFn ix f args body }
+      | .fn _ => st
+  | .expr nm e =>
+      if nm.isNone && isPointless e then { st with warnings := st.warnings ++ [.pointless sc ix] } else st
+  | .label l =>
+      if st.ldefs.has l then { st with warnings := st.warnings ++ [.redefLabel sc l ix] }
+      else { st with ldefs := st.ldefs ++ [(l, ix)] }
+  | .jump l _ => { st with lused := st.lused.set l ix }
+  | _ => st
+
+/-- one scope's statement loop from index `ix` (`for ix, statement in enumerate(statements)`) -/
 def scopeLoop (sc : Scope) (onFn : Nat → Name → List Name → List Stmt → List Warning) :
     Nat → List Stmt → LoopState → LoopState
   | _, [], st => st
-  | ix, .function f args _ _ body :: rest, st =>
-      let st' : LoopState := match sc with
-        | .global =>
-            let st1 : LoopState :=
-              if st.fdefs.has f then { st with warnings := st.warnings ++ [.redefFunction f ix] }
-              else { st with fdefs := st.fdefs ++ [(f, ix)] }
-            { st1 with warnings := st1.warnings ++ onFn ix f args body }
-        | .fn _ => st
-      scopeLoop sc onFn (ix + 1) rest st'
-  | ix, .expr nm e :: rest, st =>
-      let st' : LoopState :=
-        if nm.isNone && isPointless e then { st with warnings := st.warnings ++ [.pointless sc ix] } else st
-      scopeLoop sc onFn (ix + 1) rest st'
-  | ix, .label l :: rest, st =>
-      let st' : LoopState :=
-        if st.ldefs.has l then { st with warnings := st.warnings ++ [.redefLabel sc l ix] }
-        else { st with ldefs := st.ldefs ++ [(l, ix)] }
-      scopeLoop sc onFn (ix + 1) rest st'
-  | ix, .jump l _ :: rest, st => scopeLoop sc onFn (ix + 1) rest { st with lused := st.lused.set l ix }
-  | ix, _ :: rest, st => scopeLoop sc onFn (ix + 1) rest st
+  | ix, s :: rest, st => scopeLoop sc onFn (ix + 1) rest (scopeStep sc onFn ix s st)
 
 def unusedLabelW (sc : Scope) (ldefs lused : Dict) : List Warning :=
   ldefs.sortedKeys.filterMap fun l => if lused.has l then none else some (.unusedLabel sc l (ldefs.get l))
@@ -232,7 +236,7 @@ def RedefinedLabelAt (ss : List Stmt) (l : Name) (i : Nat) : Prop :=
 
 /-- statement `i` of the script defines function `f`, which an earlier statement already defined -/
 def RedefinedFunctionAt (ss : List Stmt) (f : Name) (i : Nat) : Prop :=
-  (∃ a v y b, ss[i]? = some (.function f a v y b)) ∧ ∃ j, j < i ∧ ∃ a v y b, ss[j]? = some (.function f a v y b)
+  (∃ k a v y b, ss[i]? = some (.function k f a v y b)) ∧ ∃ j, j < i ∧ ∃ k a v y b, ss[j]? = some (.function k f a v y b)
 
 /-- argument position `i` repeats an earlier argument name -/
 def DuplicateArgAt (args : List Name) (a : Name) (i : Nat) : Prop :=
